@@ -10,7 +10,8 @@ BUILTIN = [b"statsd_exporter_lines_total", b"statsd_exporter_loaded_mappings", b
 import gen_line as GL
 LONG = GL.LONG_NAME
 NAMES = [b"x", b"x_sum", b"x_count", b"x_bucket", b"x_total", b"x.sum", b"x-sum", b"x\xef\xbf\xbdy",
-         b"x_count_sum", b"x_sum_bucket", b"x_sum_count", LONG, LONG + b"_sum", LONG + b"_bucket", LONG[:121], LONG[:121] + b"_count", b"x\xd9\xa3", b"x_"]
+         # every chain of two companion suffixes (x_bucket is itself a base for x_bucket_count, ...)
+         b"x_count_sum", b"x_sum_bucket", b"x_sum_count", b"x_bucket_count", b"x_bucket_sum", b"x_bucket_bucket", b"x_sum_sum", b"x_count_count", b"x_count_bucket", LONG, LONG + b"_sum", LONG + b"_bucket", LONG[:121], LONG[:121] + b"_count", b"x\xd9\xa3", b"x_"]
 TYPES = [b"c", b"g", b"ms", b"h"]
 
 
@@ -88,8 +89,27 @@ def help_after_expiry():
     return out
 
 
+def suffix_chains(tier):
+    """a base, the base with one companion suffix, and that with a second one (x, x_bucket, x_bucket_count), as timer / counter in
+    every order, under summary and histogram defaults: a scrape after every line"""
+    import itertools
+    out = []
+    sfx = [b"_sum", b"_count", b"_bucket"]
+    for obs in ([None, b"histogram"] if tier == "quick" else [None, b"histogram", b"summary"]):
+        for s1 in sfx:
+            for s2 in sfx:
+                three = [(b"x", b"ms"), (b"x" + s1, b"ms"), (b"x" + s1 + s2, b"c")]
+                for order in itertools.permutations(three):
+                    for alt in ((), ((b"x" + s1 + s2, b"ms"),)) if tier != "quick" else ((),):
+                        ops = [GM.load_op((GM.defaults(observer_type=obs), []))]
+                        for nm, ty in list(order) + list(alt):
+                            ops += [PE.I(nm + b":1|" + ty), "G"]
+                        out.append((15, ("none", 0), ops, dict(builtin=False)))
+    return out
+
+
 def run(rep, tier, seed, replay):
-    extra = [(15, ("none", 0), [PE.I(b"statsd_exporter_lines_total:1|g"), "G"], dict(builtin=True))] + help_after_expiry()
+    extra = [(15, ("none", 0), [PE.I(b"statsd_exporter_lines_total:1|g"), "G"], dict(builtin=True))] + help_after_expiry() + suffix_chains(tier)
     PC.run(rep, "C03", tier, seed, replay, gen_case, monitor, 600, 40000,
            "%(n)d histories of 2-12 lines over names {x, x_sum, x_count, x_bucket, x_total, ...} x types {c,g,ms,h} x reserved/exotic tag keys, names of "
            "the binary's own collectors, names that are only tags, two rules mapping to one name with different help, TTL expiry; a scrape (gather + "
